@@ -90,6 +90,11 @@ where
         pixel: [Self::Word; N],
         count: u32,
     ) -> Result<(), Self::Error> {
+        if count == 0 {
+            // nothing to send; also avoids looping forever on an empty fill below
+            return Ok(());
+        }
+
         let fill_count = core::cmp::min(count, (self.buffer.len() / N) as u32);
         let filled_len = fill_count as usize * N;
         for chunk in self.buffer[..(filled_len)].chunks_exact_mut(N) {
